@@ -419,6 +419,8 @@ func checkC15(c *Ctx) {
 				return "compressed", ""
 			})
 	}
+	// the accumulation buffer belongs to this response only
+	c.bufferStartsEmpty(w)
 	// buffer cap in Write
 	c.traceRule("buffer-cap", w.Key+".Write", w.Methods["Write"], c.rwSpec(w),
 		"bytes are buffered only while buffered+len(b) ≤ cap; beyond it the header is sent and everything is streamed uncompressed",
@@ -535,4 +537,82 @@ func checkC15(c *Ctx) {
 			})
 	}
 	_ = types.Typ
+}
+
+// bufferStartsEmpty: the buffer a response is accumulated in is created for that response (zero
+// value / fresh allocation) or is reset on every path before the downstream handler runs.
+func (c *Ctx) bufferStartsEmpty(w *Wrapper) {
+	p := c.P
+	fr := p.Freshness()
+	for _, cr := range w.Creators {
+		ckey := w.Key + "@" + p.FuncKey(cr)
+		var stores []*ssa.Store
+		instrsOf(cr, func(in ssa.Instruction) {
+			if k, st := storeKey(in); k == w.Key+".buf" {
+				stores = append(stores, st)
+			}
+		})
+		if len(stores) == 0 {
+			// value-typed field of a fresh composite literal: zero value, nothing shared
+			st, _ := w.Named.Underlying().(*types.Struct)
+			shared := false
+			for i := 0; st != nil && i < st.NumFields(); i++ {
+				if st.Field(i).Name() == "buf" {
+					if _, isPtr := st.Field(i).Type().Underlying().(*types.Pointer); isPtr {
+						shared = true // pointer field never assigned here: assigned elsewhere?
+					}
+				}
+			}
+			c.Check(!shared, "buffer-starts-empty", ckey, p.Pos(cr.Pos()), "the response buffer is a value field of a freshly allocated writer (empty)", "the response buffer is a pointer that this constructor never initialises")
+			continue
+		}
+		var bad []string
+		for _, st := range stores {
+			pooled := false
+			if call, ok := rootOf(st.Val).(*ssa.Call); ok && CalleeName(call) == "(*sync.Pool).Get" {
+				pooled = true // thread-local, but it keeps whatever its previous user left in it
+			}
+			if fr.IsFresh(st.Val, 0) && !pooled {
+				continue
+			}
+			// not fresh (pooled / shared): a Reset on it must dominate the handler call
+			reset := false
+			var next ssa.Instruction
+			instrsOf(cr, func(in ssa.Instruction) {
+				if ci, ok := in.(ssa.CallInstruction); ok {
+					switch CalleeName(ci) {
+					case "(*bytes.Buffer).Reset":
+						if call, isCall := ci.(*ssa.Call); isCall && rootOf(ci.Common().Args[0]) == rootOf(st.Val) {
+							if next == nil {
+								reset = reset || true
+								_ = call
+							}
+						}
+					case "(net/http.Handler).ServeHTTP":
+						if next == nil {
+							next = in
+						}
+					}
+				}
+			})
+			// order matters: the reset must come before the handler call on every path
+			resetDominates := false
+			instrsOf(cr, func(in ssa.Instruction) {
+				if call, ok := in.(*ssa.Call); ok && CalleeName(call) == "(*bytes.Buffer).Reset" && rootOf(call.Call.Args[0]) == rootOf(st.Val) && next != nil {
+					if call.Block().Dominates(next.Block()) && (call.Block() != next.Block() || valueIndex(call) < valueIndex(next)) {
+						resetDominates = true
+					}
+				}
+			})
+			if !resetDominates {
+				bad = append(bad, p.InstrPos(st)+": the response buffer comes from "+p.Desc(st.Val, nil)+" (not created for this response) and is not reset before the handler runs: bytes left by an earlier, aborted response are delivered with this one")
+			}
+			_ = reset
+		}
+		if len(bad) == 0 {
+			c.Pass("buffer-starts-empty", ckey, p.Pos(cr.Pos()), "the response buffer is fresh or reset before use")
+		} else {
+			c.Fail("buffer-starts-empty", ckey, p.Pos(cr.Pos()), bad[0], bad...)
+		}
+	}
 }
